@@ -7,151 +7,99 @@ hash function `H`, every entry point (`raw` = `Obfuscator.ObfuscateJSON` as the 
 plugin calls it, `req`/`resp` = the flow-mode HAR collector with its `$.request.body` /
 `$.response.body` filter), every exclusion list (any strings, both notations) and every JSON
 document (any nesting, arrays, repeated names at different depths) in which no single object
-repeats a name (`wellFormed`).  The model is `Model/C16.lean` (`obfuscateBody`).
-
-The unchanged code violates the cross-exposure clause (finding F16a: suffix rule) and does not
-honour a whole-body exclusion in the prefixed notation (finding F16b).  The full statement is
-therefore proved as `c16_holds_partial` / `no_cross_exposure_partial`, whose only additions are the
-decidable hypotheses `suffixFree` and `rootNotDenoted`, next to the witnesses of the violations.
+repeats a name (`wellFormed`).  The model is `Model/C16.lean` (`obfuscateBody`), which mirrors the
+code as repaired by `fixes/F16a.patch` (findings F16a — an exclusion matched every path that was a
+string suffix of it — and F16b — the whole-body exclusion `$.request.body` was ignored).  No
+excluded class remains: the statements are at full strength.
 -/
 namespace LunarVerif.C16
 
-/-- Connection theorem (partial): on suffix-free inputs every model run satisfies the very
-    predicate the judge evaluates on the implementation's output (`Spec.holds`): excluded subtrees
-    verbatim, every other primitive hashed, keys / nesting / lengths unchanged. -/
-theorem c16_holds_partial (H : Str → Str) (side : Side) (ex : List Str) (d : Json)
-    (hwf : wellFormed d = true) (hsf : suffixFree side ex d = true) (hroot : rootNotDenoted side ex = true) :
-    holds H side ex d (obfuscateBody H side ex d) = true := by
+/-- Connection theorem: every model run satisfies the very predicate the judge evaluates on the
+    implementation's output (`Spec.holds`): explicitly excluded subtrees verbatim, every other
+    primitive hashed, keys / nesting / lengths unchanged. -/
+theorem c16_holds (H : Str → Str) (side : Side) (ex : List Str) (d : Json)
+    (hwf : wellFormed d = true) : holds H side ex d (obfuscateBody H side ex d) = true := by
   have h := obf_conforms H (bodyExclusions side ex) d [] hwf
-  rw [conforms_transfer H side ex hroot d _ [] hsf] at h
+  rw [conforms_congr H _ (specExcluded side ex) (excl_agree side ex)] at h
   exact h
 
 /-- The same for ANY body (JSON or not) and the complete answer of the entry point: this is exactly
     the predicate `lvdriver_c16 judge` evaluates (`Spec.holdsOutcome`). -/
-theorem c16_outcome_partial (H : Str → Str) (side : Side) (ex : List Str) (i : Input)
-    (hsf : ∀ d, i = .json d → suffixFree side ex d = true) (hroot : rootNotDenoted side ex = true) :
+theorem c16_outcome (H : Str → Str) (side : Side) (ex : List Str) (i : Input) :
     holdsOutcome H side ex i (run H side ex i) = true := by
   cases i with
   | json d =>
     simp only [run, holdsOutcome, Bool.or_eq_true, Bool.not_eq_true']
     cases hwf : wellFormed d with
     | false => exact Or.inl rfl
-    | true => exact Or.inr (c16_holds_partial H side ex d hwf (hsf d rfl) hroot)
+    | true => exact Or.inr (c16_holds H side ex d hwf)
   | notJson e => cases side <;> cases e <;> rfl
 
-/-- The full statement (without `suffixFree`) is FALSE for the unchanged code: F16a. -/
-theorem c16_holds_violation_witness :
-    ∃ (H : Str → Str) (side : Side) (ex : List Str) (d : Json),
-      wellFormed d = true ∧ rootNotDenoted side ex = true ∧
-      holds H side ex d (obfuscateBody H side ex d) = false :=
-  ⟨fun _ => [], .req, ["$.request.body.user.name".toList],
-    .obj [("name".toList, .str "top-secret".toList), ("user".toList, .obj [("name".toList, .str "bob".toList)])],
-    by decide, by decide, by decide⟩
-
-/-- Keys, nesting and array lengths are preserved — for every exclusion list, suffix-free or not. -/
+/-- Keys, nesting and array lengths are preserved. -/
 theorem structure_preserved (H : Str → Str) (side : Side) (ex : List Str) (d : Json)
     (hwf : wellFormed d = true) : shape (obfuscateBody H side ex d) = shape d :=
-  conforms_shape H _ d _ [] (obf_conforms H (bodyExclusions side ex) d [] hwf)
+  conforms_shape H _ d _ [] (c16_holds H side ex d hwf)
 
-/-- A subtree on or under an explicitly excluded path is returned unchanged (the whole-body
-    exclusion by prefix alone aside: F16b). -/
+/-- A subtree on or under an explicitly excluded path is returned unchanged. -/
 theorem excluded_verbatim (H : Str → Str) (side : Side) (ex : List Str) (d v : Json) (q : List Step)
-    (hwf : wellFormed d = true) (hroot : rootNotDenoted side ex = true)
-    (hget : getAt q d = some v) (hcov : covered side ex q = true) :
-    getAt q (obfuscateBody H side ex d) = some v := by
-  have h := obf_conforms H (bodyExclusions side ex) d [] hwf
-  have hc : coveredFrom (modelExcl (bodyExclusions side ex)) [] q = true :=
-    coveredFrom_mono _ _ (spec_imp_model side ex hroot) q [] hcov
-  exact (conforms_getAt H _ q [] d _ v h hget).1 hc
+    (hwf : wellFormed d = true) (hget : getAt q d = some v) (hcov : covered side ex q = true) :
+    getAt q (obfuscateBody H side ex d) = some v :=
+  (conforms_getAt H _ q [] d _ v (c16_holds H side ex d hwf) hget).1 hcov
 
-/-- Every primitive whose position is not on or under a cursor the walk treats as excluded becomes
-    the string `H(pre-image)` — for every exclusion list. -/
+/-- Every primitive whose path is not explicitly excluded, nor any ancestor's, becomes the string
+    `H(pre-image)`. -/
 theorem non_excluded_hashed (H : Str → Str) (side : Side) (ex : List Str) (d v : Json) (q : List Step)
     (hwf : wellFormed d = true) (hget : getAt q d = some v) (hleaf : isLeaf v = true)
-    (hnot : coveredBy (modelExcl (bodyExclusions side ex)) q = false) :
+    (hnot : covered side ex q = false) :
     getAt q (obfuscateBody H side ex d) = some (.str (H (leafPre v))) := by
-  have h := obf_conforms H (bodyExclusions side ex) d [] hwf
-  obtain ⟨o, ho, hc, he⟩ := (conforms_getAt H _ q [] d _ v h hget).2 hnot
+  obtain ⟨o, ho, hc, he⟩ := (conforms_getAt H _ q [] d _ v (c16_holds H side ex d hwf) hget).2 hnot
   rw [← conforms_leaf H _ _ v o hleaf he hc]
   exact ho
 
-/-- No cross exposure (partial): on suffix-free inputs a primitive is left in clear exactly when its
-    own path or an ancestor's is explicitly excluded, and is hashed otherwise. -/
-theorem no_cross_exposure_partial (H : Str → Str) (side : Side) (ex : List Str) (d v : Json) (q : List Step)
-    (hwf : wellFormed d = true) (hsf : suffixFree side ex d = true) (hroot : rootNotDenoted side ex = true)
-    (hget : getAt q d = some v) (hleaf : isLeaf v = true) :
+/-- No cross exposure: a primitive is left in clear exactly when its own path or an ancestor's is
+    explicitly excluded, and is hashed otherwise — an exclusion for one path never exposes a value
+    at a different path, such as a field with the same name elsewhere in the document. -/
+theorem no_cross_exposure (H : Str → Str) (side : Side) (ex : List Str) (d v : Json) (q : List Step)
+    (hwf : wellFormed d = true) (hget : getAt q d = some v) (hleaf : isLeaf v = true) :
     (covered side ex q = true → getAt q (obfuscateBody H side ex d) = some v) ∧
-    (covered side ex q = false → getAt q (obfuscateBody H side ex d) = some (.str (H (leafPre v)))) := by
-  have h := c16_holds_partial H side ex d hwf hsf hroot
-  have hp := conforms_getAt H _ q [] d _ v h hget
-  refine ⟨hp.1, fun hc => ?_⟩
-  obtain ⟨o, ho, hcf, he⟩ := hp.2 hc
-  rw [← conforms_leaf H _ _ v o hleaf he hcf]
-  exact ho
+    (covered side ex q = false → getAt q (obfuscateBody H side ex d) = some (.str (H (leafPre v)))) :=
+  ⟨excluded_verbatim H side ex d v q hwf hget, non_excluded_hashed H side ex d v q hwf hget hleaf⟩
 
-/-- F16a: `{"name":"top-secret","user":{"name":"bob"}}` with the exclusion
-    `$.request.body.user.name` leaves the TOP-LEVEL `name` in clear — whatever the hash — although
-    neither `.name` nor an ancestor is excluded (`.name` is a string suffix of the exclusion). -/
-theorem suffix_violation_witness :
-    ∃ (side : Side) (ex : List Str) (d : Json) (q : List Step) (s : Str),
-      wellFormed d = true ∧ rootNotDenoted side ex = true ∧
-      getAt q d = some (.str s) ∧ covered side ex q = false ∧
-      ∀ H : Str → Str, getAt q (obfuscateBody H side ex d) = some (.str s) :=
-  ⟨.req, ["$.request.body.user.name".toList],
-    .obj [("name".toList, .str "top-secret".toList), ("user".toList, .obj [("name".toList, .str "bob".toList)])],
-    [.key "name".toList], "top-secret".toList,
-    by decide, by decide, rfl, by decide, fun _ => rfl⟩
+/-! ### Non-vacuity and regression examples -/
 
-/-- F16b: in the flow-mode collector the exclusion `$.request.body` (the whole body) is not
-    honoured: the body's values are hashed although their ancestor (the root) is excluded. -/
-theorem root_exclusion_violation_witness :
-    ∃ (side : Side) (ex : List Str) (d : Json) (q : List Step) (s : Str),
-      wellFormed d = true ∧ suffixFree side ex d = true ∧
-      getAt q d = some (.str s) ∧ covered side ex q = true ∧
-      ∀ H : Str → Str, getAt q (obfuscateBody H side ex d) = some (.str (H s)) :=
-  ⟨.req, ["$.request.body".toList], .obj [("a".toList, .str "x".toList)], [.key "a".toList], "x".toList,
-    by decide, by decide, rfl, by decide, fun _ => rfl⟩
-
-/-- With the proposed patch (`Model/C16Fix.lean`: strip the prefix in `filterBodyExclusions`, compare
-    exactly in `isCursorInExcludedPath`) the FULL property holds: no `suffixFree`, no `rootNotDenoted`. -/
-theorem c16_holds_after_fix (H : Str → Str) (side : Side) (ex : List Str) (d : Json)
-    (hwf : wellFormed d = true) : holds H side ex d (obfuscateBodyFixed H side ex d) = true := by
-  show conformsWith H (specExcluded side ex) [] d (obfWith H (fixedExcl (fixedExclusions side ex)) [] d) = true
-  rw [fixedExcl_eq_spec]
-  exact obfWith_conforms H (specExcluded side ex) d [] hwf
-
-/-! ### Non-vacuity -/
-
-/-- A non-trivial input meeting every hypothesis of `c16_holds_partial` /
-    `no_cross_exposure_partial`: names repeated at two depths, an array of objects, an exclusion that
-    keeps one value verbatim while the others are hashed. -/
+/-- names repeated at two depths, an array of objects, a number, a boolean -/
 def exDoc : Json :=
-  .obj [("user".toList, .obj [("name".toList, .str "bob".toList), ("id".toList, .num "7".toList)]),
+  .obj [("name".toList, .str "top-secret".toList),
+        ("user".toList, .obj [("name".toList, .str "bob".toList), ("id".toList, .num "7".toList)]),
         ("items".toList, .arr [.obj [("id".toList, .num "10.999".toList)], .obj []]),
         ("ok".toList, .bool true)]
 
-example : wellFormed exDoc = true ∧ suffixFree .req ["$.request.body.user.name".toList] exDoc = true ∧
-    rootNotDenoted .req ["$.request.body.user.name".toList] = true := by decide
+example : wellFormed exDoc = true := by decide
 
+/-- the former F16a witness: the exclusion `$.request.body.user.name` keeps `.user.name` verbatim and
+    now hashes the TOP-LEVEL `name` (and everything else) -/
 example : ∀ H : Str → Str,
     obfuscateBody H .req ["$.request.body.user.name".toList] exDoc =
-      .obj [("user".toList, .obj [("name".toList, .str "bob".toList), ("id".toList, .str (H "7.00".toList))]),
+      .obj [("name".toList, .str (H "top-secret".toList)),
+            ("user".toList, .obj [("name".toList, .str "bob".toList), ("id".toList, .str (H "7.00".toList))]),
             ("items".toList, .arr [.obj [("id".toList, .str (H "11.00".toList))], .obj []]),
             ("ok".toList, .str (H "true".toList))] := fun _ => rfl
+
+/-- both notations work at the `raw` entry point (policy-mode lists) -/
+example : ∀ H : Str → Str,
+    obfuscateBody H .raw [".user.name".toList] exDoc =
+      obfuscateBody H .raw ["$.request.body.user.name".toList] exDoc := fun _ => rfl
+
+/-- the former F16b witness: `$.request.body` excludes the whole request body -/
+example : ∀ H : Str → Str, obfuscateBody H .req ["$.request.body".toList] exDoc = exDoc := fun _ => rfl
 
 /-- hypotheses of `excluded_verbatim` / `non_excluded_hashed` met at concrete positions -/
 example : covered .raw [".items".toList] [.key "items".toList, .elem 0, .key "id".toList] = true ∧
     getAt [.key "items".toList, .elem 0, .key "id".toList] exDoc = some (.num "10.999".toList) := ⟨by decide, rfl⟩
 
-example : coveredBy (modelExcl (bodyExclusions .raw [".items".toList])) [.key "user".toList, .key "id".toList] = false ∧
-    isLeaf (.num "7".toList) = true := by decide
-
-/-- the patched walk on the F16a witness: the top-level name is hashed, the excluded one kept -/
-example : ∀ H : Str → Str,
-    obfuscateBodyFixed H .req ["$.request.body.user.name".toList]
-      (.obj [("name".toList, .str "top-secret".toList), ("user".toList, .obj [("name".toList, .str "bob".toList)])])
-      = .obj [("name".toList, .str (H "top-secret".toList)), ("user".toList, .obj [("name".toList, .str "bob".toList)])] :=
-  fun _ => rfl
+example : covered .req ["$.request.body.user.name".toList] [.key "name".toList] = false ∧
+    getAt [.key "name".toList] exDoc = some (.str "top-secret".toList) ∧
+    isLeaf (.str "top-secret".toList) = true := ⟨by decide, rfl, by decide⟩
 
 /-- the exclusion written for the other side is filtered out: nothing is excluded -/
 example : ∀ H : Str → Str,
